@@ -141,7 +141,8 @@ def run(prog, chk):
     for r, v in rets:
         if v == 1:
             atoms = fin.dominating_atoms(w, w.node_pos(r))
-            full = any(a[0] != "case" and a[1] and re.match(r"^\(sent >= size\)$", fin.key(w, a[0])) for a in atoms)
+            # the count returned by send covers the request: `sent >= size`, `size <= sent`, `!(sent < size)`, `sent == size`
+            full = any(a[0] != "case" and fin._canon(w, a[0], a[1]) in (("size", "<=", "sent"), ("sent", "==", "size"), ("size", "<", "sent")) for a in atoms)
             via_app = w.find_path(w.entry_pos(), {w.node_pos(r)}, avoid=q.pos_of(w, apps_all), after_src=False) is None
             if full or via_app:
                 chk.ok("C13.c", w, "return true at line %s accounts for all bytes" % w.nodes[r]["l"], w.where(r), "sent >= size" if full else "an append on every path", evals=2)
